@@ -672,6 +672,43 @@ def run(prog, rep, tier):
             rep.violation(R1611, "%s|%s|wrong-container" % (FN, lit), "pathbuf_to_filetype_impl: with the suffix %r the self-call records the container %s, expected %s; "
                           "`app.log.%s` is handed to the wrong decoder and nothing is read" % (lit, sorted(got), want, lit))
 
+    # ------------------------------------------------------------ R16.12 the verdict is a function of the name, not of how deep the recursion is
+    # "The reader is chosen from the file name alone, for every name": the classifier recurses once
+    # per stripped component and terminates because every self-call shortens the name (R16.4).  A
+    # counter argument that cuts the recursion off after N components makes names with more components
+    # fall back to text although a type word is further left (`wtmp.2023.01...17`).
+    R1612 = rep.rule("R16.12", "no decision of the classifier depends on an integer argument (a recursion counter)")
+    argtys = [b.local_ty(k_) or "" for k_ in range(1, b.argc + 1)]
+    INT = ("usize", "u8", "u16", "u32", "u64", "isize", "i8", "i16", "i32", "i64")
+    int_args = [k_ for k_ in range(1, b.argc + 1) if (b.local_ty(k_) or "") in INT]
+    decided_by_counter = []
+    for k_ in int_args:
+        for bb in sorted(b.live):
+            t = b.term(bb)
+            if t[0] != "switch":
+                continue
+            seen_, work_ = set(), [t[1]]
+            hit = False
+            while work_ and len(seen_) < 40 and not hit:
+                cur_ = work_.pop()
+                if cur_[0] == "k":
+                    continue
+                for o_ in b.origins(cur_):
+                    if o_[0] == "arg" and o_[1] == k_:
+                        hit = True
+                    elif o_[0] == "bin" and (o_[1], o_[2]) not in seen_:
+                        seen_.add((o_[1], o_[2]))
+                        st_ = b.stmts(o_[1])[o_[2]]
+                        work_.extend(x for x in (st_[2][2], st_[2][3]) if x[0] != "k")
+            if hit:
+                decided_by_counter.append((k_, b.blocks[bb].get("l")))
+    rep.examined(R1612, FN + "|arguments", sample={"argument_types": argtys, "integer_arguments": int_args, "decisions_on_them": decided_by_counter})
+    if b.argc < 3 or not any("PathBuf" in t_ for t_ in argtys):
+        raise CheckerError("R16.12: unexpected signature of pathbuf_to_filetype_impl: %s" % argtys)
+    if decided_by_counter:
+        rep.violation(R1612, FN + "|arguments|counter-decides", "pathbuf_to_filetype_impl (line %s) takes a decision from its integer argument #%d - a recursion counter; names with more components than the bound are no longer typed by their type word "
+                      "(`wtmp.2023.01...17` is read as text, `app.evtx` plus 18 suffixes as text)" % (decided_by_counter[0][1], decided_by_counter[0][0]))
+
     return rep.finish(
         "Static necessary-condition check of the name classifier: the suffix table and the bare-name table agree on every shared type word, every "
         "constructed FileType carries the container variable, every self-call passes the unparseable flag unchanged and Some(container) (the "
